@@ -123,6 +123,44 @@ func ruleC19(w *World) {
 			})
 		}
 	}
+	// R5: the interface contracts R1 relies on when a listed operation calls a key through its interface
+	// (Encode / EncodeCompressed / Equals / Size / Algorithm / String are readers; Encode* hand out memory
+	// nobody else holds) hold for every implementation in the module.
+	w.floor("C19.R5", 20)
+	readers := []string{"Encode", "EncodeCompressed", "Equals", "Size", "Algorithm", "String"}
+	freshRes := map[string]bool{"Encode": true, "EncodeCompressed": true}
+	for _, iface := range []string{"PublicKey", "PrivateKey"} {
+		for _, t := range w.implementors(rootPath, iface, rootPath) {
+			for _, mn := range readers {
+				f := w.method(t, mn)
+				if f == nil || f.Blocks == nil {
+					continue
+				}
+				effs := ea.sharedWrites(f, 0, map[*ssa.Function]bool{})
+				key := fnKey(f) + "/reader"
+				if len(effs) > 0 {
+					e := effs[0]
+					w.viol("C19.R5", key, e.Ins.Pos(), fmt.Sprintf("%s.%s is called by the read-only operations through the %s interface and assumed not to write, but it may write memory other goroutines can reach: %s [%s]", t.Obj().Name(), mn, iface, e.What, rootDesc(e.Root)))
+				} else {
+					w.ok("C19.R5", key, f.Pos(), mn+" writes only memory of its own activation")
+				}
+				if freshRes[mn] {
+					bad := ""
+					for _, r := range returns(f) {
+						if len(r.Results) == 0 {
+							continue
+						}
+						for _, rr := range ea.roots(r.Results[0], f, 0) {
+							if rr.kind != rkFresh {
+								bad = rootDesc(rr)
+							}
+						}
+					}
+					w.check(bad == "", "C19.R5", fnKey(f)+"/fresh-result", f.Pos(), "the returned encoding is memory of this call", fmt.Sprintf("%s.%s returns memory that is %s: two callers (or a caller and the key) share one buffer, so a write by one changes what the other sees", t.Obj().Name(), mn, bad))
+				}
+			}
+		}
+	}
 	// R2: on hashers passed to the BLS operations only Size and ComputeHash are invoked (transitively through the guard)
 	for _, o := range ops {
 		if o.hasherParam < 0 || !strings.Contains(o.name, "BLS") && !strings.Contains(o.name, "Batch") {
